@@ -411,7 +411,8 @@ def gen_session(rng):
         r = rng.random()
         span = n + 12
         if r < 0.25:
-            ops.append(("prefetch", rng.choice([n, n, n + rng.randrange(0, 40), max(0, n - rng.randrange(0, 10))])))
+            ops.append(("prefetch", rng.choice([n, n, n + rng.randrange(0, 40), max(0, n - rng.randrange(0, 10)),
+                                                rng.randrange(0, n + 1), rng.randrange(0, n + 1)])))
         elif r < 0.45:
             ops.append(("seek", rng.randrange(0, span)))
         elif r < 0.7:
@@ -520,9 +521,16 @@ def direct_sessions(ctx, scale):
     sf.threading = ThreadingShim
     cases = []
     try:
+        fixed = [
+            # prefetch(file_size) smaller than the file, then read through and past the prefetched range
+            (bytes(range(1, 61)), 16, 0, 1, [("prefetch", 30), ("read", 60), ("read", 5)]),
+            (bytes(range(1, 61)), 16, 3, 2, [("prefetch", 17), ("seek", 10), ("read", 20), ("read", 40)]),
+            (bytes(range(1, 41)), 8, 0, 1, [("prefetch", 0), ("read", 40)]),
+            (bytes(range(1, 41)), 8, 0, 1, [("prefetch", 16), ("readv", [(10, 25), (0, 40)]), ("read", 3)]),
+        ]
         for j in range(150 * scale):
-            sess = gen_session(rng)
-            fail_rate = 0.04 if rng.random() < 0.15 else 0.0
+            sess = fixed[j] if j < len(fixed) else gen_session(rng)
+            fail_rate = 0.04 if rng.random() < 0.15 and j >= len(fixed) else 0.0
             out, text, failures = run_session_impl(rng, sess, fail_rate)
             if out is None or len(text) > 40000:
                 continue
@@ -585,6 +593,35 @@ class Rig:
 SHORT = {"mode": "full", "seed": 0, "maxlen": 0}
 
 
+class PausingLock:
+    """Wraps a file's _prefetch_lock: threads other than the reader pause right after releasing it, so the
+    reader gets to run at that switch point (between a critical section of _prefetch_thread and its next
+    statement)."""
+
+    def __init__(self, inner, reader, pause):
+        self.inner, self.reader, self.pause = inner, reader, pause
+
+    def _after(self):
+        if threading.current_thread() is not self.reader:
+            import time
+            time.sleep(self.pause)
+
+    def __enter__(self):
+        return self.inner.__enter__()
+
+    def __exit__(self, *exc):
+        r = self.inner.__exit__(*exc)
+        self._after()
+        return r
+
+    def acquire(self, *a, **k):
+        return self.inner.acquire(*a, **k)
+
+    def release(self):
+        self.inner.release()
+        self._after()
+
+
 def short_len(offset, length):
     mode = SHORT["mode"]
     if mode == "full" or length <= 1:
@@ -624,7 +661,10 @@ def gen_real_case(rng, thorough):
         r = rng.random()
         cap = rng.choice([None, None, 1, 2, 3, 5, 8])
         if r < 0.3:
-            ops.append(["prefetch", cap, rng.choice([None, None, size + rng.randrange(0, 80000)])])
+            ops.append(["prefetch", cap, rng.choice([None, None, size + rng.randrange(0, 80000),
+                                                     rng.randrange(0, size + 1), max(0, size - rng.randrange(1, 5000))])])
+        elif r < 0.34:
+            ops.append(["grow", rng.choice([1, 100, rng.randrange(1, 70000)])])
         elif r < 0.45:
             ops.append(["seek", rng.choice([0, rng.randrange(0, size + 10), rng.randrange(0, span)])])
         elif r < 0.7:
@@ -640,7 +680,11 @@ def gen_real_case(rng, thorough):
                 chunks.append([o, rng.choice([0, 1, 10, rng.randrange(0, lim), rng.randrange(0, 40000) % (lim + 1)])])
             ops.append(["readv", chunks, cap])
     case = {"size": size, "mode": mode, "seed": rng.randrange(1 << 30), "ops": ops}
-    if rng.random() < 0.3 and size <= 200000:
+    if rng.random() < 0.15 and size <= 70000:
+        # switch point after every critical section of the prefetch thread; the application pauses between ops
+        case["pause"] = rng.choice([0.02, 0.05])
+        case["ops"] = [x for op in ops for x in (op, ["wait", 3 * case["pause"]])]
+    elif rng.random() < 0.3 and size <= 200000:
         case["delay"] = rng.choice([0.01, 0.03, 0.06])      # open the send -> register race window
     return case
 
@@ -676,15 +720,52 @@ def execute_real(rig, root, case, name):
             time.sleep(delay)
         return num
 
+    chan = rig.sftp.sock
+    orig_send = chan.send
+
+    def partial_send(bts):
+        # a socket may accept only part of a buffer (Channel.send does so for > max-packet buffers and short
+        # windows); the sender comes back for the rest -- another thread's packet must not get in between
+        import time
+        n = orig_send(bts[:max(1, len(bts) // 2)])
+        time.sleep(0.001)
+        return n
+
     def body():
         reader["t"] = threading.current_thread()
         if delay:
             rig.sftp._async_request = slow_async_request
+        if case.get("partial_send"):
+            chan.send = partial_send
+        nonlocal data
         f = rig.sftp.open("/" + name, "rb")
+        if case.get("pause"):
+            f._prefetch_lock = PausingLock(f._prefetch_lock, reader["t"], case["pause"])
         pos = 0
         for idx, op in enumerate(case["ops"]):
             if op[0] == "prefetch":
                 f.prefetch(op[2], op[1])
+            elif op[0] == "grow":
+                # the file is appended to after the client learnt its size (stat lags behind the file)
+                extra = file_bytes(op[1], case["seed"] + idx + 1)
+                with open(os.path.join(root, name), "ab") as fh:
+                    fh.write(extra)
+                data = data + extra
+            elif op[0] == "wait":
+                import time
+                time.sleep(op[1])
+            elif op[0] == "write":
+                # another request stream on the same SFTPClient while the prefetch thread is still sending
+                payload = file_bytes(op[1], case["seed"] + idx + 7)
+                with rig.sftp.open("/w" + name, "wb") as fb:
+                    fb.write(payload)
+                with open(os.path.join(root, "w" + name), "rb") as fh:
+                    disk = fh.read()
+                os.unlink(os.path.join(root, "w" + name))
+                if disk != payload:
+                    res["bad"] = ("wrong-bytes-written", "a write issued while a prefetch was in progress stored other "
+                                  "bytes", idx, len(payload), len(disk))
+                    return
             elif op[0] == "seek":
                 f.seek(op[1])
                 pos = op[1]
@@ -715,9 +796,9 @@ def execute_real(rig, root, case, name):
     try:
         st, v = with_watchdog(body, WATCHDOG)
     finally:
-        if delay:
+        for obj, attr in ((rig.sftp, "_async_request"), (chan, "send")):
             try:
-                del rig.sftp._async_request
+                delattr(obj, attr)
             except AttributeError:
                 pass
     if st == "hang":
@@ -754,6 +835,30 @@ REGRESSIONS = [
      "with max_concurrent_prefetch_requests=1 an EOF status keeps its extent, the prefetch thread never sends the "
      "next request and the reader blocks",
      {"size": 500, "mode": "full", "seed": 14, "ops": [["readv", [[600, 10], [0, 10]], 1]]}),
+    ("prefetch-underestimated-size",
+     "prefetch(file_size=N) with N smaller than the file: reads through and past N must still return the file's bytes "
+     "(not stop at N)",
+     {"size": 100000, "mode": "full", "seed": 17,
+      "ops": [["prefetch", None, 40000], ["read", 100000], ["read", 10]]}),
+    ("prefetch-file-grew-after-stat",
+     "the file is appended to after prefetch() learnt its size: reads past the old end must return the new bytes",
+     {"size": 50000, "mode": "random", "seed": 18,
+      "ops": [["prefetch", None, None], ["read", 20000], ["grow", 30000], ["read", 100000], ["seek", 79990], ["read", 50]]}),
+    ("prefetch-done-flag-lost-at-thread-switch",
+     "the reader consumes the last reply right after _prefetch_thread left its critical section (switch point forced "
+     "by a pausing lock); a later read that runs off the buffers must not wait for a reply that is not outstanding",
+     {"size": 100, "mode": "full", "seed": 19, "pause": 0.3,
+      "ops": [["prefetch", None, None], ["read", 50], ["wait", 0.9], ["read", 100]]}),
+    ("prefetch-done-flag-lost-at-thread-switch-capped",
+     "same switch point with max_concurrent_requests=1 and two chunks",
+     {"size": 40000, "mode": "full", "seed": 20, "pause": 0.15,
+      "ops": [["prefetch", 1, None], ["read", 39000], ["wait", 0.8], ["read", 5000]]}),
+    ("concurrent-send-interleaves",
+     "BaseSFTP._send_packet is not a critical section: while a prefetch thread is still sending READ requests, another "
+     "request of the same SFTPClient that needs more than one sock.send (partial sends) gets the thread's bytes in "
+     "between; the server reads garbage and the session wedges or is dropped",
+     {"size": 1000, "mode": "full", "seed": 21, "partial_send": True,
+      "ops": [["prefetch", None, 4194304], ["write", 300000], ["seek", 0], ["read", 1000]]}),
     ("reply-before-extent-registered",
      "the reader receives a prefetch reply before _prefetch_thread has recorded the request (registration delayed "
      "0.15 s): the reply must wait for the registration; otherwise the extent is never released and read() after "
@@ -790,7 +895,8 @@ def real_oracle(ctx, scale):
             if time.time() - t0 > 3:
                 ctx.log("slow real case %.1fs: %s -> %s" % (time.time() - t0, str(case)[:300], r and r[0]))
             ctx.count(("real", repr(case)), nontrivial=case["size"] > 0 and len(case["ops"]) > 0,
-                      kind="real-%s%s-%s" % (case["mode"], "-latereg" if case.get("delay") else "",
+                      kind="real-%s%s-%s" % (case["mode"], "-latereg" if case.get("delay") else
+                                             ("-switch" if case.get("pause") else ""),
                                              "+".join(sorted({o[0] for o in case["ops"]}))))
             if r is not None and r[0] in ("hang", "exception") and key is None:
                 # retry once on a fresh connection before believing a timing-dependent failure
